@@ -27,21 +27,21 @@ let event_of (line : string) : event option =
   | "rd.begin" :: a ->
     (match List.map int_of_string a with
      | [nn; first; last; term; vote; commit; cn; cfirst; clast; st; si] ->
-       if si <> 0 || st <> 0 then raise (Unsupported "incoming snapshot");
        let hs = not (term = 0 && vote = 0 && commit = 0) in
        let tv = hs && (term <> !wterm || vote <> !wvote) in
        if hs then (wterm := term; wvote := vote);
        Some (EvRdBegin { r_n = n_of_int nn; r_first = n_of_int first; r_last = n_of_int last; r_hs = hs; r_tv = tv;
-                         r_commit = n_of_int commit; r_cn = n_of_int cn; r_cfirst = n_of_int cfirst; r_clast = n_of_int clast })
+                         r_commit = n_of_int commit; r_cn = n_of_int cn; r_cfirst = n_of_int cfirst; r_clast = n_of_int clast;
+                         r_snap = n_of_int si })
      | _ -> raise (Unsupported line))
   | "rd.walsave.before" :: _ -> Some EvRdSaveBefore
   | "rd.walsave.after" :: _ -> Some EvRdSaveAfter
   | ["wl.cut.rename.before"; i] -> Some (EvCutBefore (n i))
   | ["wl.cut.after"; i] -> Some (EvCutAfter (n i))
-  | ["rd.publish.before"; c; l; si] -> if si <> "0" then raise (Unsupported "incoming snapshot"); Some (EvRdPublish (n c, n l))
+  | ["rd.publish.before"; c; l; si] -> Some (EvRdPublish (n c, n l, n si))
   | "rd.append.after" :: _ -> Some EvRdAppendAfter
   | ["rd.advance.before"] -> Some EvRdAdvance
-  | ["ap.apply.before"; a; c; si] -> if si <> "0" then raise (Unsupported "incoming snapshot"); Some (EvApBefore (n a, n c))
+  | ["ap.apply.before"; a; c; si] -> Some (EvApBefore (n a, n c, n si))
   | ["ap.apply.after"; a] -> Some (EvApAfter (n a))
   | ["ap.raftdone.after"; a] -> Some (EvApRaftDone (n a))
   | ["ap.trigger.before"; a; s] -> Some (EvApTriggerBefore (n a, n s))
@@ -68,6 +68,18 @@ let event_of (line : string) : event option =
   | ["rs.copy.after"; _; i] -> Some (EvRsCopied (n i))
   | ["rc.restore.after"; _; i] -> Some (EvRcRestored (n i))
   | ["rc.replay.after"; c; l; cm] -> Some (EvRcReplay (n c, n l, n cm))
+  | ["fs.local.ok"; _; i] -> Some (EvFsLocalOk (n i))
+  | ["fs.mark.after"; _; i] -> Some (EvFsMark (n i))
+  | ["fs.copy.after"; _; i] -> Some (EvFsCopy (n i))
+  | ["fs.complete.after"; _; i] -> Some (EvFsComplete (n i))
+  | ["as.prepare.after"; _; i] -> Some (EvAsPrepared (n i))
+  | ["as.raftdone.after"; _; i] -> Some (EvAsRaftDone (n i))
+  | ["as.restore.after"; _; i] -> Some (EvAsRestored (n i))
+  | ["rd.savesnap.before"; _; i] -> Some (EvRdSaveSnapBefore (n i))
+  | ["rd.savesnap.after"; _; i] -> Some (EvRdSaveSnapAfter (n i))
+  | ["rd.applysnap.before"; _; i] -> Some (EvRdApplySnapBefore (n i))
+  | ["rd.applysnap.after"; _; i] -> Some (EvRdApplySnapAfter (n i))
+  | ["rd.release.after"; _; i] -> Some (EvRdReleaseAfter (n i))
   | "KILL" :: _ | "ARM" :: _ | [""] | [] -> None
   | _ -> raise (Unsupported line)
 
@@ -109,7 +121,12 @@ let run_events (c : config) (s : state) (evs : (string * event) list) : (state, 
   let rec remove_first x = function [] -> [] | y :: t -> if x = y then t else y :: remove_first x t in
   let rec go s pend pos = function
     | [] -> Stdlib.Ok s
-    | (txt, e) :: t ->
+    | (txt, e0) :: t ->
+      (* SaveSnap logs ps.snapfile.after for a local snapshot goroutine and for the raft loop (incoming snapshot) alike *)
+      let e = (match e0, s.rdp with
+               | EvSnFile i, RdSnapSaving (r, false) when r.r_snap = i -> EvRdSnapFile i
+               | EvSnFile i, _ when List.mem (EvRdSnapFile i) pend -> EvRdSnapFile i
+               | _ -> e0) in
       if List.mem e pend then go s (remove_first e pend) (pos + 1) t
       else begin
         (* the schedule hypothesis of the theorems is evaluated on the real run: a log on which it is false is rejected *)
@@ -142,8 +159,15 @@ let run_events (c : config) (s : state) (evs : (string * event) list) : (state, 
   go s [] 0 evs
 
 (* all states reachable by completing a subset of the in-flight sub-steps (fewest completions first) *)
-let completions (c : config) (s : state) : state list =
-  let evs = inflight s in
+let completions (c : config) (s : state) (real : (int list * int list * int list) option) : state list =
+  (* a checkpoint directory that is being copied from another replica (prepareSnapshotForStore, possibly in the
+     transport's receive goroutine that has logged nothing yet) shows in the listing before fs.copy.after is logged *)
+  let fetching = (match real with
+                  | Some (_, _, ck) when ck <> [-1] ->
+                    let (_, _, mck) = listing_of s in
+                    List.filter_map (fun i -> if i > 0 && not (List.mem i mck) then Some (EvFsCopy (n_of_int i)) else None) ck
+                  | _ -> []) in
+  let evs = inflight s @ fetching in
   let rec subsets = function
     | [] -> [[]]
     | x :: t -> let r = subsets t in r @ List.map (fun l -> x :: l) r in
@@ -159,8 +183,9 @@ let save_len (s : state) : int =
   | RdSaving (r, _, false) -> List.length (ready_records r)
   | _ -> 0
 
+let isolated = ref false
 let rec_str (s : state) (j : int) (extra : int) : string =
-  match recover_state s (nat_of_int j) (nat_of_int extra) with
+  match (if !isolated then recover_state_isolated else recover_state) s (nat_of_int j) (nat_of_int extra) with
   | Ok l -> string_of_int (List.length l)
   | Err e -> "err" ^ dec_of_n e
 
@@ -182,7 +207,8 @@ let parse_life (first : bool) (r : string) : life =
 let () =
   read_lines stdin (fun line ->
     match split_on '\t' line with
-    | id :: "D" :: cfg :: runs :: _ ->
+    | id :: kind :: cfg :: runs :: _ when kind = "D" || kind = "F" ->
+      isolated := (kind = "F");
       let c = (match split_on ',' cfg with
                | [kw; kb; o] -> { keep_wal = nat_of_int (int_of_string kw); keep_backup = nat_of_int (int_of_string kb); opt_fsync = (o = "1"); persist_first = true; clean_orphans = true; flush_first = true }
                | _ -> failwith "bad config") in
@@ -203,7 +229,7 @@ let () =
              | Stdlib.Error (pos, code, txt) ->
                (Printf.sprintf "rej:%d:%d:%s" pos code txt :: List.map (fun _ -> "skipped") rest, false)
              | Stdlib.Ok s ->
-               let cands = completions c s in
+               let cands = completions c s l.real in
                let best = ref None in
                let found = ref None in
                List.iter (fun cand ->
